@@ -6,6 +6,57 @@ K = 4
 ASSOC = {"@none": 0, "@left": 1, "@right": 2}
 
 
+def unq(n):
+    """the repaired model keys literals with a leading quote"""
+    return n[1:] if n.startswith('"') else n
+
+
+def level_problems(tree, out):
+    """the recorded levels of a parsed result against the directives of the tree -> list of problems"""
+    facts = sg.spec_facts(tree)
+    want = facts["levels"]
+    problems = []
+    nlev = 0
+    if [a for a, _ in out["L"]] != [ASSOC[a] for a, _ in want]:
+        problems.append("associativities %s, directives %s" % ([a for a, _ in out["L"]], [a for a, _ in want]))
+        return problems, nlev
+    langs = sg.cfg_languages(out["P"], K)
+    allprods = {(h, tuple(b)) for h, b in out["P"]}
+    for li, ((_, got), (_, hs)) in enumerate(zip(out["L"], want)):
+        nlev += 1
+        want_terms = {h[1] for h in hs if h[0] in ("tok", "str")}
+        got_terms = {unq(n) for k, n in got if k == "t"}
+        if got_terms != want_terms:
+            problems.append("level %d: terminals %s, written %s" % (li, sorted(got_terms), sorted(want_terms)))
+        got_prods = [p for k, p in got if k == "p"]
+        for h, b in got_prods:
+            if (h, tuple(b)) not in allprods:
+                problems.append("level %d: handle production %s -> %s is not a production of the grammar" % (li, h, b))
+        # per head: the productions contributed generate what the rule handles with that head denote
+        heads = {h[1] for h in hs if h[0] == "rule"}
+        if {h for h, _ in got_prods} != heads:
+            problems.append("level %d: production handles for heads %s, rule handles written for %s" % (li, sorted({h for h, _ in got_prods}), sorted(heads)))
+            continue
+        env = sg.ebnf_languages(tree, K)
+        for head in heads:
+            want_lang = set()
+            for h in hs:
+                if h[0] == "rule" and h[1] == head:
+                    want_lang |= ({()} if h[2] is None else sg.denote(h[2], env, K, lambda s: ("str", s)))
+            want_lang = {tuple(n for _, n in w) for w in want_lang}
+            got_lang = set()
+            for hh, b in got_prods:
+                if hh != head:
+                    continue
+                acc = {()}
+                for kind, name in b:
+                    acc = sg.cat(acc, {(unq(name),)} if kind == "t" else {tuple(unq(x) for x in w) for w in langs.get(name, set())}, K)
+                got_lang |= acc
+            if got_lang != want_lang:
+                problems.append("level %d: the productions recorded for <%s = ...> do not generate what was written" % (li, head))
+    return problems, nlev
+
+
 def run(ctx):
     quick = ctx.tier == "quick"
     ctx.build_go()
@@ -46,64 +97,32 @@ def run(ctx):
     known = {f["id"]: f for f in known_for("C12")}
     nacc, nlev = 0, 0
     distinct = set()
+    pending = []
     for (tree, text), i in zip(cases, impl):
         if not i.startswith("OK"):
             continue
         nacc += 1
-        out = parse_ok(i)
-        facts = sg.spec_facts(tree)
-        want = facts["levels"]
-        problems = []
-        if [a for a, _ in out["L"]] != [ASSOC[a] for a, _ in want]:
-            problems.append("associativities %s, directives %s" % ([a for a, _ in out["L"]], [a for a, _ in want]))
-        else:
-            langs = sg.cfg_languages(out["P"], K)
-            allprods = {(h, tuple(b)) for h, b in out["P"]}
-            toknames = set(facts["token_defs"]) | set(facts["used_tokens"])
-            for li, ((_, got), (_, hs)) in enumerate(zip(out["L"], want)):
-                nlev += 1
-                want_terms = {h[1] for h in hs if h[0] in ("tok", "str")}
-                got_terms = {n for k, n in got if k == "t"}
-                if got_terms != want_terms:
-                    problems.append("level %d: terminals %s, written %s" % (li, sorted(got_terms), sorted(want_terms)))
-                got_prods = [p for k, p in got if k == "p"]
-                for h, b in got_prods:
-                    if (h, tuple(b)) not in allprods:
-                        problems.append("level %d: handle production %s -> %s is not a production of the grammar" % (li, h, b))
-                # per head: the productions contributed generate what the rule handles with that head denote
-                heads = {h[1] for h in hs if h[0] == "rule"}
-                if {h for h, _ in got_prods} != heads:
-                    problems.append("level %d: production handles for heads %s, rule handles written for %s" % (li, sorted({h for h, _ in got_prods}), sorted(heads)))
-                    continue
-                env = sg.ebnf_languages(tree, K)
-                for head in heads:
-                    want_lang = set()
-                    for h in hs:
-                        if h[0] == "rule" and h[1] == head:
-                            want_lang |= ({()} if h[2] is None else sg.denote(h[2], env, K, lambda s: ("str", s)))
-                    want_lang = {tuple(n for _, n in w) for w in want_lang}
-                    got_lang = set()
-                    for hh, b in got_prods:
-                        if hh != head:
-                            continue
-                        acc = {()}
-                        for kind, name in b:
-                            acc = sg.cat(acc, {(name,)} if kind == "t" else langs.get(name, set()), K)
-                        got_lang |= acc
-                    if got_lang != want_lang:
-                        problems.append("level %d: the productions recorded for <%s = ...> do not generate what was written" % (li, head))
+        problems, n = level_problems(tree, parse_ok(i))
+        nlev += n
         distinct.add(text)
         if problems:
-            facts_strs = set(facts["used_strs"])
-            toks = set(facts["token_defs"]) | set(facts["used_tokens"])
-            if "F14" in known and (facts_strs & toks):
+            pending.append((tree, text, i, problems))
+    # a disagreement is attributed to the recorded findings (F14: literal spelled like a token; F2b: user rule spelled like a
+    # synthesised name) only if the model with exactly those findings repaired satisfies the same oracle on the same input
+    explained = 0
+    if pending:
+        fixed = ctx.run_model("specfixed", [hx(p[1]) for p in pending])
+        for (tree, text, i, problems), fx in zip(pending, fixed):
+            if known and fx.startswith("OK") and not level_problems(tree, parse_ok(fx))[0]:
+                explained += 1
                 continue
             ctx.add_violation("recorded precedence levels differ from the directives written",
-                              {"input_hex": hx(text), "input": text.decode(), "problems": problems[:5], "implementation": decode_hex_fields(i)[:3000]})
+                              {"input_hex": hx(text), "input": text.decode(), "problems": problems[:5], "implementation": decode_hex_fields(i)[:3000],
+                               "model_with_findings_repaired": decode_hex_fields(fx)[:1500]})
     ctx.witness_hits()
     cov = {"evaluations": len(cases), "distinct_nontrivial": len(distinct),
            "rule": "seeded random specifications with 1-8 extra directives (any mix of @left/@right/@none; token, literal and <rule> handles with alternation and extended operators) inserted at random places among the other declarations; non-trivial = distinct accepted specification",
-           "samples": [texts[0].decode(), texts[-1].decode()], "accepted": nacc, "levels_checked": nlev, "correspondence_disagreements": ncorr,
+           "samples": [texts[0].decode(), texts[-1].decode()], "accepted": nacc, "levels_checked": nlev, "correspondence_disagreements": ncorr, "explained_by_known_findings": explained,
            "trusted_base": TRUSTED_BASE + ["source order of directive reductions rests on C18 (reductions in rightmost-derivation order)", "checks/specgen.py: what the directives say, read off the syntax tree"]}
     return ctx.finish(LEVEL, cov, ["rule-handle expansion compared by bounded language (length <= %d) and membership in the grammar's production set" % K])
 
